@@ -1485,12 +1485,17 @@ theorem loadStmts_imports (b : Bundle) (fuel : Nat) (includes : List String) (it
 
 /-! ### the induction over the instance tree -/
 
-/-- the component-level fact the system-level agreement is parametric in: whatever `Comp.load` accepts,
-    `denoteComp` accepts with the same anonymous counter and the same ports -/
-def CompAccept : Prop :=
-  ∀ (c : Comp.Src) (args : Nat) (pfx : String) (anon : Nat) (st : Comp.St) (a : Nat),
+/-- the component-level fact the system-level agreement rests on, for the component sources satisfying `good`:
+    whatever `Comp.load` accepts, `denoteComp` accepts with the same anonymous counter and the same ports.
+    It is a consequence of the component theorem C01 for `good c := UserNamesOk c` (`SysPil.compAccept`). -/
+def CompAcceptOn (good : Comp.Src → Prop) : Prop :=
+  ∀ (c : Comp.Src) (args : Nat) (pfx : String) (anon : Nat) (st : Comp.St) (a : Nat), good c →
     Comp.load c args pfx anon = .ok (st, a) →
     ∃ o ports, denoteComp c pfx anon = .ok (o, ports, a) ∧ PortsAgree pfx (compPorts st) ports
+
+/-- every component source stored in the bundle satisfies `good` -/
+def BundleComps (good : Comp.Src → Prop) (b : Bundle) : Prop :=
+  ∀ k c, b.files.lookup k = some (.comp c) → good c
 
 theorem instPorts_length (inst : Inst) : (instPorts inst).length = (instArity inst).1 + (instArity inst).2 := by
   cases inst <;> simp [instPorts, instArity, compPorts, sysPorts]
@@ -1599,7 +1604,7 @@ theorem stmts_agree (b : Bundle) (fuel : Nat) (includes : List String)
 
 /-- **the two walks agree**: whatever `load_file` accepts, the specification `denoteFile` accepts, with the same
     anonymous counter and the same ports (names, declaration stars, lengths) — for every instance tree -/
-theorem wiring_agrees (hc : CompAccept) (b : Bundle) : ∀ (fuel : Nat) base args argKey pfx path includes anon inst a',
+theorem wiring_agrees {good : Comp.Src → Prop} (hc : CompAcceptOn good) (b : Bundle) (hb : BundleComps good b) : ∀ (fuel : Nat) base args argKey pfx path includes anon inst a',
     loadFile b fuel base args argKey pfx path includes anon = .ok (inst, a') →
     ∃ d ports, denoteFile b fuel base args argKey pfx path includes anon = .ok (d, ports, a') ∧
       PortsAgree pfx (instPorts inst) ports := by
@@ -1637,7 +1642,7 @@ theorem wiring_agrees (hc : CompAccept) (b : Bundle) : ∀ (fuel : Nat) base arg
               rw [hcl] at h
               simp only [Except.ok.injEq, Prod.mk.injEq] at h
               obtain ⟨rfl, rfl⟩ := h
-              obtain ⟨o, ports, hd, hp⟩ := hc c args pfx anon st a1 hcl
+              obtain ⟨o, ports, hd, hp⟩ := hc c args pfx anon st a1 (hb _ c hl) hcl
               have hpar : (c.params.length != args) = false := by simp [(load_stars hcl).1]
               rw [hpar, hd]
               exact ⟨_, _, rfl, hp⟩
@@ -1703,13 +1708,13 @@ theorem wiring_agrees (hc : CompAccept) (b : Bundle) : ∀ (fuel : Nat) base arg
 /-- the signal tables of a loaded system agree with the specification's: same signals, same order, same
     lengths, and each member region of the specification is the region of the corresponding compile-path entry
     (`rc` of the port's nucleotides exactly when the entry's `wc` flag is set) -/
-theorem sys_tables_agree (hc : CompAccept) (b : Bundle) (fuel : Nat) (includes : List String) (stmts : List SStmt)
+theorem sys_tables_agree {good : Comp.Src → Prop} (hc : CompAcceptOn good) (b : Bundle) (hb : BundleComps good b) (fuel : Nat) (includes : List String) (stmts : List SStmt)
     (newPath name pfx : String) (anon : Nat) (st : SysSt) (a1 : Nat)
     (hs : loadStmts b fuel includes stmts (.mk newPath name pfx [] [] [] [] [] []) anon = .ok (st, a1)) :
     ∃ d1 sa, denoteSysStmts b fuel includes newPath pfx stmts [] Design.empty {} anon = .ok (d1, sa, a1) ∧
       TablesAgree pfx st.signals st.lengths sa := by
   have ht0 : TablesAgree pfx [] [] ({} : SigAcc) := ⟨rfl, rfl, rfl, rfl, fun x hx => (nomatch hx)⟩
-  obtain ⟨d1, sa, hd, ht, hpf⟩ := stmts_agree b fuel includes (wiring_agrees hc b fuel) stmts _ st anon a1 Design.empty {} hs ht0
+  obtain ⟨d1, sa, hd, ht, hpf⟩ := stmts_agree b fuel includes (wiring_agrees hc b hb fuel) stmts _ st anon a1 Design.empty {} hs ht0
   have hpf' : st.pfx = pfx := hpf
   rw [hpf'] at ht
   exact ⟨d1, sa, hd, ht⟩
